@@ -178,3 +178,18 @@ Example parse_print_lf_ex :
      with Ok sv => Some sv | _ => None end) =
   Some (expect false None 65536 ex_req (B "helloGET /next")).
 Proof. split; [apply print_head_e_crlf|]. split; vm_compute; reflexivity. Qed.
+
+Example schedule_independent_ex :
+  let stream := print_head ex_req ++ B "helloGET /next" in
+  sched_pos (repeat 1%nat 80) /\ sched_pos [70; 3; 50]%nat /\
+  option_map observed (match serve vec_grow 0 false None 200%nat 65536 stream (repeat 1%nat 80) with Ok sv => Some sv | _ => None end) =
+  option_map observed (match serve (fun _ len add => (len + add)%nat) 2 false None 200%nat 65536 stream [70; 3; 50]%nat with Ok sv => Some sv | _ => None end) /\
+  (length (print_head ex_req) + 5 <= 80)%nat.
+Proof. split; [repeat constructor|]. split; [repeat constructor|]. vm_compute. split; [reflexivity|repeat constructor]. Qed.
+
+(** a body that is cut short: EOF gives what arrived, a stall the time-out, a failure the I/O error *)
+Example body_short_ex :
+  body_spec 0 (B "ab") 10 100 (B "cd") = Ok (B "abcd") /\ body_spec 1 (B "ab") 10 100 (B "cd") = Err E_TIMEDOUT /\
+  body_spec 2 (B "ab") 10 100 (B "cd") = Err E_IO /\
+  read_to_bytes vec_grow 1 (B "ab") 10 100 (mk_reader (B "cd") [1; 1]%nat) = Err E_TIMEDOUT.
+Proof. vm_compute. repeat split; reflexivity. Qed.
